@@ -22,6 +22,7 @@ import TshVerif.Lemmas.SemBLoop
 import TshVerif.Lemmas.SemBDet
 import TshVerif.Lemmas.SemBLabels
 import TshVerif.Lemmas.SemBLinesComplete
+import TshVerif.Lemmas.SemBPre
 
 namespace Tsh.C05S
 open Tsh Tsh.Tr Tsh.Batch Tsh.Sem Tsh.SemB
@@ -153,6 +154,8 @@ theorem scalar_core (p : Program) (hf : Src.fragStmts p = true) (hn : simpleLoop
     ∃ (st : St) (cmds : List BCmd),
       ls = st.startCode.reverse ++ helperLines st ++ flats none cmds ++ [.label "end", .raw "endlocal & exit /B %_e%"] ∧
       wfBs cmds = true ∧ Resolves ls ∧
+      (∃ extra, st.startCode.reverse = baseStart ++ extra ∧ ∀ l ∈ extra, lfLine l = true) ∧
+      helperLines st = (if st.echReq then echoHelper else []) ∧
       ∀ fuel o out, Src32.runProgram fuel p = some (o, out) →
         ∃ c' : Cfg, ExecBs cmds ⟨startStore, []⟩ o c' ∧ c'.out = out ∧ (o = .normal → c'.ρ "_e" = "0") := by
   unfold compile at hc
@@ -205,7 +208,23 @@ theorem scalar_core (p : Program) (hf : Src.fragStmts p = true) (hn : simpleLoop
           simp [third]
       rw [hb] at hfalse
       simp at hfalse
-    refine ⟨s, cmds, ?_, wf, by rw [← hc, e3]; exact hres, ?_⟩
+    have hstart : ∃ extra, s2.startCode.reverse = baseStart ++ extra ∧ ∀ l ∈ extra, lfLine l = true := by
+      obtain ⟨_, extra, hse, hpe⟩ := ad.env
+      have hs1c : s1.startCode = [.set "_e" "0", .raw "setlocal", .raw "setlocal EnableDelayedExpansion", .raw "@echo off"] := by
+        have : programStart ({} : St) = .ok ((), s1) := h1
+        simp [programStart, addStartLine, Tr.modify, bind] at this
+        rw [← this]
+      refine ⟨extra.reverse, by rw [hse, hs1c]; simp [baseStart], fun l hl => hpe l (List.mem_reverse.mp hl)⟩
+    have hhelp : helperLines s2 = (if s2.echReq then echoHelper else []) := by
+      obtain ⟨⟨f1, f2, f3, f4, f5, f6, f7, f8, f9⟩, _⟩ := ad.env
+      have hs1f : s1.fwhReq = false ∧ s1.appCallReq = false ∧ s1.readReq = false ∧ s1.schReq = false ∧ s1.sahReq = false ∧
+          s1.slsReq = false ∧ s1.slgReq = false ∧ s1.stshReq = false ∧ s1.stlhReq = false := by
+        have : programStart ({} : St) = .ok ((), s1) := h1
+        simp [programStart, addStartLine, Tr.modify, bind] at this
+        rw [← this]; exact ⟨rfl, rfl, rfl, rfl, rfl, rfl, rfl, rfl, rfl⟩
+      obtain ⟨g1, g2, g3, g4, g5, g6, g7, g8, g9⟩ := hs1f
+      simp [helperLines, f1, f2, f3, f4, f5, f6, f7, f8, f9, g1, g2, g3, g4, g5, g6, g7, g8, g9, echoHelper]
+    refine ⟨s, cmds, ?_, wf, by rw [← hc, e3]; exact hres, by rw [e3]; exact hstart, by rw [e3]; exact hhelp, ?_⟩
     · rw [← hc, e3]; exact hshape
     · intro fuel o out hr
       unfold Src32.runProgram at hr
@@ -240,7 +259,7 @@ theorem batch_preserves_scalar_semantics (p : Program) (hf : Src.fragStmts p = t
       ls = st.startCode.reverse ++ helperLines st ++ flats none cmds ++ [.label "end", .raw "endlocal & exit /B %_e%"] ∧
       ∀ fuel o out, Src32.runProgram fuel p = some (o, out) →
         ∃ c' : Cfg, ExecBs cmds ⟨startStore, []⟩ o c' ∧ c'.out = out ∧ (o = .normal → c'.ρ "_e" = "0") := by
-  obtain ⟨st, cmds, e, _, _, sem⟩ := scalar_core p hf hn ls hc
+  obtain ⟨st, cmds, e, _, _, _, _, sem⟩ := scalar_core p hf hn ls hc
   exact ⟨st, cmds, e, sem⟩
 
 /-- **The outcome is unique, and it is the one the executable tree interpreter computes.**  The relation `ExecBs` is
@@ -281,7 +300,7 @@ theorem batch_script_lines_preserve_scalar_semantics (p : Program) (hf : Src.fra
         ∃ c' : Cfg, c'.out = out ∧
           (o = .normal → LRun ls (main ++ [.label "end", .raw "endlocal & exit /B %_e%"]) ⟨startStore, []⟩ (.exit 0) c') ∧
           (∀ k, o = .exit k → LRun ls (main ++ [.label "end", .raw "endlocal & exit /B %_e%"]) ⟨startStore, []⟩ (.exit k) c') := by
-  obtain ⟨st, cmds, e, wf, hres, sem⟩ := scalar_core p hf hn ls hc
+  obtain ⟨st, cmds, e, wf, hres, _, _, sem⟩ := scalar_core p hf hn ls hc
   refine ⟨st.startCode.reverse ++ helperLines st, flats none cmds, by rw [e]; simp, ?_⟩
   intro fuel o out hr
   obtain ⟨c', ex, eo, he⟩ := sem fuel o out hr
@@ -299,6 +318,48 @@ theorem batch_script_lines_preserve_scalar_semantics (p : Program) (hf : Src.fra
   · intro k ho
     subst ho
     exact snd
+
+/-- **The WHOLE script, from its first line and the empty store, does what the program does.**  For every program of the
+    scalar fragment: whenever the 32-bit source semantics runs the program to a normal end (or to a panic) with printed lines
+    `out`, the emitted script `ls` - all of it: `@echo off`, the two `setlocal`, `set "_e=0"`, the definition of `LF` where a
+    string literal asked for it, the jump over the echo routine, the lines of the program, `:end` and
+    `endlocal & exit /B %_e%` - runs under the line-level semantics `Sem/CmdLines.LRun` from its FIRST line and the EMPTY
+    store to exit code 0 (or 1) with the same printed lines.  No block tree, no start store and no position inside the script
+    in the statement; the only definitions it speaks about are `compile`, `Src32.runProgram` and `LRun` (which is exactly what
+    the interpreter `lrun` computes, `line_semantics_is_what_lrun_computes`, and what every run compares with lib/cmdsim.py on
+    the rendered text).  Needs, beyond `batch_script_lines_preserve_scalar_semantics`: no helper routine but the echo routine
+    is requested and the start code only grows by the `LF` definition (threaded through the simulation, `EnvExt`), and the
+    run through the lines in front of the program (`Lemmas/SemBPre.pre_leads`).
+    Still outside: that cmd.exe reads the rendered text as these lines; the value of `LF` (the strings of the fragment contain
+    no line break). -/
+theorem batch_whole_script_preserves_scalar_semantics (p : Program) (hf : Src.fragStmts p = true) (hn : simpleLoopsStmts p = true)
+    (ls : List BLine) (hc : compile p = .ok ls) :
+    ∀ fuel o out, Src32.runProgram fuel p = some (o, out) →
+      ∃ c' : Cfg, c'.out = out ∧
+        (o = .normal → LRun ls ls ⟨fun _ => "", []⟩ (.exit 0) c') ∧
+        (∀ k, o = .exit k → LRun ls ls ⟨fun _ => "", []⟩ (.exit k) c') := by
+  obtain ⟨st, cmds, e, wf, hres, ⟨extra, hst, hex⟩, hh, sem⟩ := scalar_core p hf hn ls hc
+  intro fuel o out hr
+  obtain ⟨c', ex, eo, he⟩ := sem fuel o out hr
+  have hp : ls = (st.startCode.reverse ++ helperLines st) ++ (flats none cmds ++ [.label "end", .raw "endlocal & exit /B %_e%"]) := by
+    rw [e]; simp
+  have snd := sound_Bs hres ex wf none _ _ hp
+  have hw : ls = baseStart ++ (extra ++ ((if st.echReq then echoHelper else []) ++
+      (flats none cmds ++ [.label "end", .raw "endlocal & exit /B %_e%"]))) := by
+    rw [hp, hst, hh]; simp
+  have pre := pre_leads ls extra (flats none cmds ++ [.label "end", .raw "endlocal & exit /B %_e%"]) hex st.echReq hw
+  rw [← hw] at pre
+  refine ⟨c', eo, ?_, ?_⟩
+  · intro ho
+    subst ho
+    have h0 : asCode (c'.ρ "_e") = some 0 := by
+      rw [he rfl]
+      show asCode (Nat.repr 0) = some 0
+      simp [asCode]
+    exact pre _ _ (snd _ _ (.plabel (.finish h0)))
+  · intro k ho
+    subst ho
+    exact pre _ _ snd
 
 /-- **At the line level the outcome is unique, and it is the one the executable line interpreter computes.**  `LRun` is
     deterministic (`LRun.det`) and the interpreter `lrun` - run on every script of the fragment in every check, next to the
